@@ -118,6 +118,20 @@ def mp_ghost(ex, st, mode, vals):
     return {'src': lift_str(vals['self'].fields['parser'].fields['latex'])}
 
 
+class ErrMarkPost(Spec):
+    """MathParser.error_mark after expand_math_section"""
+    def __init__(self, src):
+        self.src = src
+
+    def check(self, ex, st, v, label, line=0):
+        tm.PreOutList(self.src).check(ex, st, v.fields['error_mark'],
+                                      label + '.error_mark', line)
+
+    def remake(self, ex, st, cur):
+        cur.fields['error_mark'] = tm.PreOutList(self.src).make(ex, st)
+        st.writes.append((cur.oid, 'error_mark'))
+
+
 def register(T, repo):
     MathParserS = T.mathparser_spec
     from pyvc.engine import FuncRef
@@ -141,6 +155,27 @@ def register(T, repo):
     def post_buf(A):
         return pm.BufPostS(A['src'])
 
+    def post_p_keep_mark(A):
+        # replace_section runs no maths section: the error mark of the last
+        # section is still the one expand_math_section left (proved: the
+        # function and what it inlines do not store to the attribute --
+        # a store would be logged and rejected by the frame of its loop)
+        inner = MathParserS(A['src'])
+
+        class _K(Spec):
+            def make(self, ex, st):
+                return inner.make(ex, st)
+
+            def check(self, ex, st, v, label, line=0):
+                inner.check(ex, st, v, label, line)
+
+            def remake(self, ex, st, cur):
+                keep = cur.fields.get('error_mark')
+                inner.remake(ex, st, cur)
+                if keep is not None:
+                    cur.fields['error_mark'] = keep
+        return _K()
+
     # -------------------------------------------------- expand_math_section
     c = T.add(FContract(
         MP + 'expand_math_section', ghosts=mp_ghost,
@@ -155,9 +190,19 @@ def register(T, repo):
             ListS(section_tok(A['src']), None, 'section'),
             tm.OptTokS(tm.DocTok(A['src']))),
         post_objs=[('buffer', lambda A: A['buf'], post_buf),
-                   ('parser', lambda A: A['self'], post_p)]))
+                   ('parser', lambda A: A['self'], post_p),
+                   # C08: the error mark of this section (empty, or the
+                   # pieces of the mark that latex_error returned) is fit
+                   # for the output of the current text
+                   ('error-mark', lambda A: A['self'],
+                    lambda A: ErrMarkPost(A['src']))]))
     lp = c.loop(0)
     pm.loop_parser_shapes(lp, parser='parser', buf='buf')
+    # (calls inside the loop may leave any mark in self.error_mark: nested
+    # maths; the attribute is assigned once after the loop)
+    lp.shapes['self.error_mark'] = lambda E: ListS(AnyS(), None,
+                                                   'error_mark')
+    lp.shapes['mark'] = lambda E: tm.PreOutList(E['src'])
     lp.shapes['out'] = lambda E: ListS(tm.DocTok(E['src']), None, 'mout')
     lp.shapes['tok'] = lambda E: tm.OptTokS(tm.DocTok(E['src']))
     lp.shapes['out'] = lambda E: ListS(tm.TokS(lambda ex, t: And(
@@ -246,7 +291,7 @@ def register(T, repo):
         ensures=[('repls-length', lambda A, r: zint(A['repls'].length()) ==
                   zint(A['old']['n']))],
         olds=lambda A: {'n': A['repls'].length()},
-        post_objs=[('parser', lambda A: A['self'], post_p)]))
+        post_objs=[('parser', lambda A: A['self'], post_p_keep_mark)]))
     lp = c.loop(0)
     lp.shapes['out'] = lambda E: hull_out(E['src'], E)
     lp.shapes['repls'] = lambda E: ListS(ReplStrS(name='repl'), None,
@@ -274,6 +319,10 @@ def register(T, repo):
     c2 = T.get(MP + 'expand_display_math')
     lp = c2.loop(0)
     pm.loop_parser_shapes(lp, parser='self.parser', buf='buf')
+    # (nothing is known about the left-over mark at the loop head; the loop
+    # ends by `break` right after a call of expand_math_section)
+    lp.shapes['self.error_mark'] = lambda E: ListS(AnyS(), None,
+                                                   'error_mark')
     lp.shapes['out'] = lambda E: tm.PreOutList(E['src'],
                                                lambda n: zint(n) >= 1)
     lp.invs.append(('start-in-range', lambda E: And(
